@@ -96,11 +96,11 @@ package atree
 //@   ensures[C10] err == nil ==> notified > old(notified)
 //@   modifies heap, ghost.sto, ghost.stored, ghost.touched, ghost.notified, alloc
 
-//@ func (a *Array) SetType(typeInfo) (err)  serves C01 C03 C10
+//@ func (a *Array) SetType(typeInfo) (err)  serves C01 C03 C08 C10
 //@   requires a.Storage != nil && isArr(a.root)
 //@   requires ite(is(a.root, *ArrayDataSlab), as(a.root, *ArrayDataSlab).extraData != nil, as(a.root, *ArrayMetaDataSlab).extraData != nil)
 //@   ensures[C10] err == nil && old(ite(is(a.root, *ArrayDataSlab), as(a.root, *ArrayDataSlab).inlined, false)) ==> notified > old(notified)
-//@   ensures[C01 C03] err == nil && !old(ite(is(a.root, *ArrayDataSlab), as(a.root, *ArrayDataSlab).inlined, false)) ==> has(stored, a.root)
+//@   ensures[C01 C03 C08] err == nil && !old(ite(is(a.root, *ArrayDataSlab), as(a.root, *ArrayDataSlab).inlined, false)) ==> has(stored, a.root)
 //@   modifies heap, ghost.sto, ghost.stored, ghost.touched, ghost.notified, alloc
 
 //@ # ---- child-index tracking (C10/C11): entries at or after an insertion point move up, entries after a removal point move down
